@@ -232,14 +232,24 @@ def sampleTables : LTables :=
 
 theorem sampleTables_wf : WFTables Cfg.fixed sampleTables where
   notify := by
-    refine ⟨by decide, by decide, by decide, by decide, ?_⟩
+    refine ⟨by decide, by decide, by decide, by decide, ?_, ?_⟩
+    · intro t
+      simp only [entriesCalls, entryCalls, keyCalls, conListCalls, encItems, encItem, List.map, List.cons_append,
+        List.nil_append, List.append_nil, List.length_append, encPrim_length, Prim.width, encStr_length, List.length_cons,
+        List.length_nil]
+      constructor <;> (repeat' split) <;> simp <;> omega
     intro e he
     simp only [sampleTables, List.mem_cons, List.not_mem_nil, or_false] at he
     rcases he with rfl | rfl <;>
       exact ⟨by simp [WFKey, strAlloc, Cfg.fixed], by simp [WFList, safePtrSize, Cfg.fixed]⟩
   waitFor := trivial
   endl := by
-    refine ⟨by decide, by decide, by decide, by decide, ?_⟩
+    refine ⟨by decide, by decide, by decide, by decide, ?_, ?_⟩
+    · intro t
+      simp only [entriesCalls, entryCalls, keyCalls, conListCalls, encItems, encItem, List.map, List.cons_append,
+        List.nil_append, List.append_nil, List.length_append, encPrim_length, Prim.width, encStr_length, List.length_cons,
+        List.length_nil]
+      constructor <;> (repeat' split) <;> simp <;> omega
     intro e he
     simp only [sampleTables, List.mem_cons, List.not_mem_nil, or_false] at he
     subst he; exact ⟨by simp [WFKey, strAlloc, Cfg.fixed], by simp [WFList, safePtrSize, Cfg.fixed]⟩
